@@ -97,7 +97,7 @@ theorem nodes_complete (fis : FIS) : ∀ p ∈ keptPaths fis, p ∈ (graphOf fis
   (graphAcc_nodes fis {}).2
 
 /-- the solid edges into a kept call come from exactly its visible kept sub-nodes -/
-theorem solid_sources_are_heads (g : Graph) (n : String) (s : Sg) (v : String) (subs : List FIS) (loads : List String)
+theorem solid_sources_are_heads (g : Graph) (n : String) (s : Sg) (v : String) (subs : List FIS) (loads : List (String × Sg))
     (u : String) :
     (u, v) ∈ (graphAcc g (.mk n s (some v) subs loads)).solid ↔
       (u, v) ∈ (graphAccL g subs).solid ∨ u ∈ headsL subs := by
@@ -112,17 +112,17 @@ theorem solid_sources_are_heads (g : Graph) (n : String) (s : Sg) (v : String) (
 
 /-- the dashed edges into a kept call come from exactly the paths it loads (whether or not the same path is
 also a solid source: since the `fix:` commit for loads of a direct dependency both edges are shown) -/
-theorem dashed_sources_are_loads (g : Graph) (n : String) (s : Sg) (v : String) (subs : List FIS) (loads : List String)
+theorem dashed_sources_are_loads (g : Graph) (n : String) (s : Sg) (v : String) (subs : List FIS) (loads : List (String × Sg))
     (u : String) :
     (u, v) ∈ (graphAcc g (.mk n s (some v) subs loads)).dashed ↔
-      (u, v) ∈ (graphAccL g subs).dashed ∨ u ∈ loads := by
+      (u, v) ∈ (graphAccL g subs).dashed ∨ u ∈ loads.map Prod.fst := by
   simp only [graphAcc, mem_addAll, mem_map, Prod.mk.injEq]
   constructor
   · rintro (h | ⟨a, ha, h1⟩)
     · exact Or.inl h
-    · simp at h1; subst h1; exact Or.inr ha
-  · rintro (h | h)
+    · exact Or.inr ⟨a, ha, h1.1⟩
+  · rintro (h | ⟨a, ha, h1⟩)
     · exact Or.inl h
-    · exact Or.inr ⟨u, h, by simp⟩
+    · exact Or.inr ⟨a, ha, h1, trivial⟩
 
 end Dds.C18
